@@ -154,6 +154,9 @@ inductive Ev where
   | eofInServe (r : TryRes)
   /-- `_async_request`: writing the request fails (the stream closes itself); not while serving -/
   | failSendRequest (s : Nat)
+  /-- a request `s` made from INSIDE the delivery of a response (`_unbox` inspecting the class of a first reference, a
+  result callback) cannot be written: the end is met while serving -/
+  | failSendNested (s : Nat) (r : TryRes)
   /-- serving a request: its response cannot be written; `ref`: the result is boxed by reference -/
   | failSendReply (ref : Bool) (r : TryRes)
   /-- `serve_all()`'s `finally: self.close()` -/
@@ -193,6 +196,17 @@ def step (l : Life) : Ev → Option Life
     -- `_request_callbacks.pop(seq, None); raise`: the requester gets EOFError; the side is NOT closed by this
     if l.issued.contains s then none
     else some { l with issued := l.issued ++ [s], chanClosed := true, outcomes := l.outcomes ++ [(s, .eof)] }
+  | .failSendNested s r =>
+    -- the requester of `s` gets EOFError (`_async_request` pops its callback and re-raises); the EOFError travels on out
+    -- of `_deliver_response` into `_dispatch`: `except EOFError: self.close(); raise` (measured:
+    -- `Gen.Proto.dispatchClosesOnEof`; before the repair only the MSG_REQUEST branch did that and the side stayed open)
+    if l.issued.contains s then none
+    else if Gen.Proto.dispatchClosesOnEof then
+      match closeCall r { l with issued := l.issued ++ [s], chanClosed := true, outcomes := l.outcomes ++ [(s, .eof)] } with
+      | (l', raised) => some (resolveBlocked (excRes raised) l')
+    else
+      some (resolveBlocked .eof { l with issued := l.issued ++ [s], chanClosed := true,
+                                         outcomes := l.outcomes ++ [(s, .eof)] })
   | .failSendReply ref r =>
     -- `_box(res)`: by reference on a live channel it enters `_local_objects`; on a closed channel `_box`
     -- raises EOFError without registering.  Then `_send` fails; `_dispatch`: `except EOFError: self.close(); raise`
